@@ -617,8 +617,13 @@ func (ref *Node) newContainerHandler() (reflectContainer, error) {
 	return nil, fmt.Errorf("could not use type '%s' for a container definition", src.Type())
 }
 
+var errNotListNode = errors.New("node does not hold a list")
+
 func (ref *Node) DoGetByKey(r node.ListRequest) (node.Node, error) {
 	//r.Selection.Find(r.Meta.Ident())
+	if ref.l == nil {
+		return nil, fmt.Errorf("%w. %s", errNotListNode, r.Path)
+	}
 	item, err := ref.l.getByKey(r)
 	if err != nil || !item.IsValid() || item.IsNil() {
 		return nil, err
@@ -627,6 +632,9 @@ func (ref *Node) DoGetByKey(r node.ListRequest) (node.Node, error) {
 }
 
 func (ref *Node) DoGetByRow(r node.ListRequest) (node.Node, []val.Value, error) {
+	if ref.l == nil {
+		return nil, nil, fmt.Errorf("%w. %s", errNotListNode, r.Path)
+	}
 	item, keyVals, err := ref.l.getByRow(r)
 	if err != nil || reflectIsEmpty(item) {
 		return nil, nil, err
@@ -651,10 +659,16 @@ func (ref *Node) DoGetByRow(r node.ListRequest) (node.Node, []val.Value, error) 
 }
 
 func (ref *Node) DoDeleteByKey(r node.ListRequest) error {
+	if ref.l == nil {
+		return fmt.Errorf("%w. %s", errNotListNode, r.Path)
+	}
 	return ref.l.deleteByKey(r)
 }
 
 func (ref *Node) DoNewListItem(r node.ListRequest) (node.Node, error) {
+	if ref.l == nil {
+		return nil, fmt.Errorf("%w. %s", errNotListNode, r.Path)
+	}
 	item, err := ref.l.newListItem(r)
 	if err != nil || !item.IsValid() || item.IsNil() {
 		return nil, err
